@@ -736,7 +736,45 @@ def substitute(p: Poly, mapping: dict, _memo=None) -> Poly:
             return b_or(*[sb(a) for a in b.args])
         raise Unsupported(b.kind)
 
+    if isinstance(p, BoolT):
+        return sb(p)
     return sp(p)
+
+
+def linear_solution(p: Poly, banned=()):
+    """If p = c*v + r for a var atom v that occurs nowhere else in p and c is a single monomial of
+    atoms known to be non-zero (declared positive, or E), return (v_atom, -r/c); else None."""
+    nested = set()
+    for i in p.atoms():
+        at = Atom._all[i]
+        if at.kind != "var":
+            for a in collect_atoms([Poly.atom(at)]):
+                if a.kind == "var" and a is not at:
+                    nested.add(a.id)
+    for i in sorted(p.atoms()):
+        at = Atom._all[i]
+        if at.kind != "var" or i in nested or at.args[0] in banned:
+            continue
+        cv = {}
+        rest = {}
+        ok = True
+        for m, c in p.terms.items():
+            e = dict(m).get(i)
+            if e is None:
+                rest[m] = c
+            elif e == 1:
+                cv[tuple(x for x in m if x[0] != i)] = c
+            else:
+                ok = False
+                break
+        if not ok or len(cv) != 1:
+            continue
+        (cm, cc), = cv.items()
+        if not all(Atom._all[j].pos or Atom._all[j].kind == "E" for j, _ in cm):
+            continue
+        coef = Poly({cm: cc})
+        return at, p_neg(p_mul(Poly(rest), p_inv(coef)))
+    return None
 
 
 class EvalError(Exception):
